@@ -30,7 +30,8 @@ def links_from_html(
             continue
 
         # urllib.parse.urljoin lowercases protocol...
-        if not PROTOCOL_RE.match(url):
+        # NOTE: a protocol-relative href ("//host/path") takes the base's protocol
+        if not PROTOCOL_RE.match(url) or url.startswith("//"):
             url = urljoin(base_url, url)
 
         if not is_url(
